@@ -16,7 +16,7 @@ META = {
     "assumptions": ["transport faults (C07/C09) are excluded from these histories; inbound ResendRequests are part of them since repo fix 7af4ef7 (their replies are judged by C06)"],
 }
 REQUIRED_ORACLES = ["numbering", "journal-readback", "stored-counter", "refused-send-unchanged", "bystander-session-untouched", "stored-counter-committed"]
-REQUIRED_COUNTERS = ["overlapping_sends_cut_by_a_disconnect"]
+REQUIRED_COUNTERS = ["overlapping_sends_cut_by_a_disconnect", "sends_while_another_task_was_closing_the_connection"]
 NSHARDS = 16
 N = {"quick": 250, "thorough": 5000}
 
@@ -159,7 +159,7 @@ async def history(acc, clock, rnd, cid):
                 acts += ["attach"] * 6
             else:
                 acts += ["in_logon", "in_testreq", "in_gapfill", "in_resendreq", "in_gap", "in_app", "in_app", "in_badhb", "in_toolow", "in_logout", "disconnect",
-                         "overlap_disconnect"]
+                         "overlap_disconnect", "closing_send"]
             a = rnd.choice(acts)
             before = snapshot()
             tap0 = before[0]
@@ -273,6 +273,54 @@ async def history(acc, clock, rnd, cid):
                 ep.vf_reader.feed(peer.frame("8", max(1, peer.next_out - 3), [(11, "low")]))
             elif a == "in_logout":
                 ep.vf_reader.feed(peer.frame("5", None, [(58, "bye")]))
+            elif a == "closing_send":
+                # one task is inside disconnect(), waiting for the transport to finish closing; another task of the application sends.
+                # Accepted or refused - a refusal has no effects, an acceptance is numbered, journaled and handed to the transport
+                import asyncio
+                gate = asyncio.Event()
+                writer = ep.vf_writer
+
+                async def slow_close():
+                    await gate.wait()
+                writer.wait_closed_hook = slow_close
+                # a transport with unsent data finishes closing (and reports connection_lost, which is what ends the reader) only when
+                # its buffer is flushed: until then the reader sees nothing
+                saved_on_close, writer.on_close = writer.on_close, None
+                derr = []
+
+                async def disc():
+                    try:
+                        await ep.disconnect(ConnectionState.DISCONNECTED_BROKEN_CONN)
+                    except Exception as e:
+                        derr.append(repr(e))
+                td = asyncio.get_running_loop().create_task(disc())
+                await settle()
+                mid = snapshot()
+                try:
+                    await ep.send_msg(FIXMessage("D", {11: f"dd{step}", 55: "X"}))
+                    trace[-1] += ":ok"
+                    accepted += 1
+                except FIXConnectionError as e:
+                    refused += 1
+                    trace[-1] += ":refused"
+                    acc.oracle("refused-send-unchanged")
+                    after = snapshot()
+                    if after != mid:
+                        V("refused-send-has-effects", f"send refused while another task was closing the connection ({e}) but live counter {mid[1]}->{after[1]}, "
+                          f"stored {mid[2]}->{after[2]}, bytes written: {after[0] != mid[0]}, journal rows changed: {after[3] != mid[3]}")
+                        return trace, refused, accepted
+                except Exception as e:
+                    V(f"send-raised:{type(e).__name__}", f"{a} in {st.name}: {e!r}")
+                    return trace, refused, accepted
+                gate.set()
+                writer.wait_closed_hook = None
+                if saved_on_close is not None:
+                    saved_on_close()
+                await settle()
+                if derr:
+                    V("disconnect-raised", derr[0])
+                    return trace, refused, accepted
+                acc.add("sends_while_another_task_was_closing_the_connection")
             elif a == "overlap_disconnect":
                 # two application tasks send while the peer does not read (the first is parked in drain()); the connection is taken
                 # down before the transport lets go.  Whatever was numbered was handed to the transport while the connection was up.
